@@ -84,6 +84,69 @@ theorem C02_aborted_never_runs (E : Env τ ω) (period stamp : τ) (houses : Lis
   intro e' he'
   exact h2.1 e' he' hend
 
+/-! ## running the same scheduler again -/
+
+/-- **Every later run of the same scheduler starts from the declared order again.** After a `run()` (not cut by
+the model's fuel) — however it ended: normally, by `KeyboardInterrupt`, by an exception in the loop or in the
+abort sweep — the deque is empty (`ready.clear()`, fix D03a); so the next `run()` on the same `Skedder` (any
+state `w` of the taskers, e.g. after `remake()`) starts with exactly one entry per declared tasker, in
+`fronts + mids + backs` order, each due at the current stamp. -/
+theorem C02_rerun_starts_declared (E : Env τ ω) (houses : List House) (fuel : Nat) (s : St τ ω) (w : ω)
+    (hne : (runLoop E fuel s).1 ≠ .fuel) :
+    (run E fuel s).2.ready = [] ∧
+    ids (restart E houses (run E fuel s).2 w).ready = declared houses ∧
+    (∀ e ∈ (restart E houses (run E fuel s).2 w).ready, e.retime = (run E fuel s).2.stamp) ∧
+    (restart E houses (run E fuel s).2 w).events = [] := by
+  have hemp := run_ready_empty E fuel s hne
+  have hf := restart_fields E houses (run E fuel s).2 w
+  refine ⟨hemp, by rw [hf.1, hemp]; simp, ?_, hf.2.1⟩
+  intro e he
+  rcases hf.2.2.2.2.2.2 e he with h | h
+  · rw [hemp] at h; simp at h
+  · exact h
+
+/-- **… and in that run, too, every pass sends to a sublist of the declared order, each tasker at most
+once, and never again after it ended** (`s` is any earlier state of the scheduler, so this covers the
+third, fourth, … run as well). -/
+theorem C02_rerun_order_once (E : Env τ ω) (houses : List House) (fuel fuel2 n : Nat) (s : St τ ω) (w : ω)
+    (hne : (runLoop E fuel s).1 ≠ .fuel) (hnd : (declared houses).Nodup) :
+    let s2 := restart E houses (run E fuel s).2 w
+    (passEvents n (run E fuel2 s2).2.events).map (·.id) <+ declared houses ∧
+    ((passEvents n (run E fuel2 s2).2.events).map (·.id)).Nodup ∧
+    NoRerun (run E fuel2 s2).2.events := by
+  obtain ⟨_, h2, _, h4⟩ := C02_rerun_starts_declared E houses fuel s w hne
+  have hsub := declared_order_from E (declared houses) _ h2 h4 fuel2 n
+  refine ⟨hsub, hsub.nodup hnd, ?_⟩
+  have hg : Good (restart E houses (run E fuel s).2 w) := by
+    refine ⟨by rw [h2]; exact hnd, ?_, ?_⟩
+    · rw [h4]; simp
+    · unfold NoRerun; rw [h4]; simp
+  exact (run_good E fuel2 _ hg).norerun
+
+/-- two taskers stopped in pass 2; the first one's generator raises when the sweep resumes it with ABORT -/
+def rerunWitness : Config Rat :=
+  { period := 1/8, stamp := 0, houses := [{ fronts := [0], mids := [1], backs := [] }],
+    taskers := [
+      { active := true, period := 0, script := [(3, [.raise (.exception "RuntimeError")])] },
+      { active := true, period := 0, tail := some (1, [.bid [0, 1] .stop none]) }] }
+
+/-- non-vacuity, and the repaired behaviour on the witness of D03a: tasker 0's ABORT handler raises in the sweep
+of the first run, tasker 1 is aborted all the same, the deque is empty, the exception leaves `run`; in the second
+run (both re-made) pass 0 sends to 0 then 1, once each -/
+example :
+    (rerunWitness.runAll 50 [[0, 1]]).map (fun r => (r.1, ids r.2.ready,
+      (r.2.events.filter (·.phase = .final)).map (·.id), (passEvents 0 r.2.events).map (·.id))) =
+      [(.raised (.exception "RuntimeError"), [], [0, 1], [0, 1]),
+       (.raised (.exception "RuntimeError"), [], [0, 1], [0, 1])] := by
+  decide +kernel
+
+/-- **Before the repair (finding D03a)**: with the old `finally:` clause (`runOld`) the sweep of that run stops at
+tasker 0's exception and tasker 1 stays in the deque — a second `run()` would then find two entries for it. -/
+theorem C02_old_sweep_left_stale_entries :
+    ids (runOld ScriptEnv 50 (start ScriptEnv rerunWitness.period rerunWitness.stamp rerunWitness.houses
+      rerunWitness.taskers)).2.ready = [1] := by
+  decide +kernel
+
 /-! ## timing (exact time)
 
 Setting of the timing theorems: `s0` is any scheduler state (in particular the one produced by
